@@ -750,6 +750,13 @@ func (s *S3Proxy) PutObject(ctx context.Context, input s3response.PutObjectInput
 		}
 	}
 
+	// an empty object has no body to stream: without a body the client
+	// declares the length 0, which an unseekable empty stream would not
+	body := input.Body
+	if input.ContentLength != nil && *input.ContentLength == 0 {
+		body = nil
+	}
+
 	// streaming backend is not seekable,
 	// use unsigned payload for streaming ops
 	output, err := s.client.PutObject(ctx, &s3.PutObjectInput{
@@ -763,7 +770,7 @@ func (s *S3Proxy) PutObject(ctx context.Context, input s3response.PutObjectInput
 		CacheControl:              input.CacheControl,
 		Expires:                   expire,
 		Metadata:                  input.Metadata,
-		Body:                      input.Body,
+		Body:                      body,
 		Tagging:                   input.Tagging,
 		ObjectLockRetainUntilDate: input.ObjectLockRetainUntilDate,
 		ObjectLockMode:            input.ObjectLockMode,
